@@ -102,7 +102,7 @@ func init() {
 					}
 				}
 			}
-			runWalksOpt(c, c.Scale(20, 400), WalkOpts{Steps: c.Scale(70, 120), Hostile: 35, NoSysDest: true, Reconfigure: true}, "C06")
+			runWalksOpt(c, c.Scale(400, 1500), WalkOpts{Steps: c.Scale(70, 120), Hostile: 35, NoSysDest: true, Reconfigure: true}, "C06")
 		},
 	})
 
